@@ -541,7 +541,14 @@ fn merge_one(m: &mut Merged, job: &Job) {
             return;
         }
     };
-    let v: Value = serde_json::from_str(&txt).unwrap_or(Value::Null);
+    let v: Value = match serde_json::from_str(&txt) {
+        Ok(v) => v,
+        Err(e) => {
+            // never silently: an unreadable result would hide whatever that worker found
+            m.machinery_errors.push(format!("result of profile {} shard {} is not readable JSON: {}", job.profile, job.shard, e));
+            return;
+        }
+    };
     if v.get("machinery_panic").is_some() {
         m.machinery_errors.push(format!("harness panicked in profile {} shard {}", job.profile, job.shard));
     }
@@ -640,8 +647,26 @@ pub fn load_known() -> Vec<Known> {
 
 pub fn replay(path: &str) -> i32 {
     let txt = fs::read_to_string(path).expect("cannot read replay file");
-    let rec: Value = serde_json::from_str(&txt).expect("replay file is not JSON");
+    let mut rec: Value = serde_json::from_str(&txt).expect("replay file is not JSON");
     let prop = rec["property"].as_str().unwrap_or("?").to_string();
+    // cases carried as text (nested too deeply to embed in the record): rebuilt when the parser accepts them
+    if let Some(t) = rec["case"]["case_text"].as_str().map(|s| s.to_string()) {
+        match serde_json::from_str::<Value>(&t) {
+            Ok(v) => rec["case"] = v,
+            Err(e) => {
+                println!("the recorded case is nested deeper than JSON text can carry ({}); it cannot be rebuilt from the record - re-run the check", e);
+                return 2;
+            }
+        }
+    } else if let (Some(r), Some(d)) = (rec["case"]["rule_text"].as_str().map(|s| s.to_string()), rec["case"]["data_text"].as_str().map(|s| s.to_string())) {
+        match (serde_json::from_str::<Value>(&r), serde_json::from_str::<Value>(&d)) {
+            (Ok(rv), Ok(dv)) => rec["case"] = json!({"rule": rv, "data": dv}),
+            _ => {
+                println!("the recorded case is nested deeper than JSON text can carry; it cannot be rebuilt from the record - re-run the check");
+                return 2;
+            }
+        }
+    }
     let case = &rec["case"];
     exec::install_panic_hook();
     if let Some(code) = spaces::replay_special(&prop, &rec) {
